@@ -7,7 +7,7 @@
                          (case-insensitively, names unambiguous), nested arbitrarily
    agree t1 t2 v v'    : every element, key and field of v' equals the one of v at the same place
    clean c             : the defect switch map_value_into_key is off *)
-From Coq Require Import List ZArith.
+From Coq Require Import List ZArith String.
 From QV Require Import Conv ConvProofs.
 Import ListNotations.
 
@@ -25,6 +25,13 @@ Theorem C20_refuses_other_kinds : forall c t1 t2 v, class_of t1 <> class_of t2 -
 Proof. exact convert_class_mismatch. Qed.
 Print Assumptions C20_refuses_other_kinds.
 
+(* ... and so is any conversion that meets, at some element, key or matched field the value
+   actually holds, kinds of different classes *)
+Theorem C20_refuses_other_kinds_nested : forall c, clean c -> forall t1 t2 v,
+  other_kind_reached t2 t1 v = true -> convert c t1 t2 v = CErr.
+Proof. exact (fun c H t1 t2 v => other_kind_refused c H t2 t1 v). Qed.
+Print Assumptions C20_refuses_other_kinds_nested.
+
 (* the pinned convertMap (value converted into the key variable, element never filled) breaks
    the first clause: map[int8]int8{1:5} becomes map[int16]int16{5:0} ... *)
 Theorem C20_refuted_map_value_into_key :
@@ -39,6 +46,13 @@ Theorem C20_refuted_map_refused :
   compat wit2_t wit2_t /\ has_type wit2_t wit2_v /\ convert cfg_pinned wit2_t wit2_t wit2_v = CErr.
 Proof. exact refuted_map_refused. Qed.
 Print Assumptions C20_refuted_map_refused.
+
+(* ... and map[int8]int8{1:5} is accepted into map[int16]string *)
+Theorem C20_refuted_map_other_kind_accepted :
+  other_kind_reached wit3_t2 wit_t1 wit_v = true /\
+  convert cfg_pinned wit_t1 wit3_t2 wit_v = COk (VMap [(VInt 5, VStr "")]).
+Proof. exact refuted_map_other_kind_accepted. Qed.
+Print Assumptions C20_refuted_map_other_kind_accepted.
 
 (* the hypotheses are met by a nested instance (struct with permuted, differently-cased fields
    holding an integer, a slice of floats, a map and a boolean) *)
